@@ -360,6 +360,17 @@ pub fn run(ctx: &Ctx) -> (&'static str, &'static str) {
             },
         );
     }
+    {
+        use ff::SqrtField;
+        let es = crate::shadow::exponent_shapes();
+        let s2: Vec<Fq2> = e2.iter().step_by(5).map(|x| x.0).collect();
+        let s6: Vec<Fq6> = e6.iter().step_by(7).map(|x| x.0).collect();
+        let s12: Vec<Fq12> = e12.iter().step_by((e12.len() / 24).max(1)).map(|x| x.0).collect();
+        shadow_field!(ctx, "Fq2", Fq2, &s2, &es);
+        shadow_sqrt!(ctx, "Fq2", Fq2, &s2);
+        shadow_field!(ctx, "Fq6", Fq6, &s6, &es);
+        shadow_field!(ctx, "Fq12", Fq12, &s12, &es);
+    }
     ctx.assume("x^(q^12) = x in F_{q^12}; Frobenius is evaluated in the model from u^q, v^q, w^q (generic exponentiation) by Fq-linearity and multiplicativity");
     (
         "exploration",
